@@ -69,6 +69,17 @@ fn bound_extension_family(emit: &mut dyn FnMut(Op)) {
             }
         }
     }
+    // the package version is the bound's text followed by a (further) revision
+    for bd in ["1.0", "1.0NB3", "1.0nb3", "1.0Nb3", "2", "1.0rc1", "1.0nB"] {
+        for extra in ["", "nb1", "nb2", "nb3", "nb4", "NB2", "nb", "nb03"] {
+            for op in [">", ">=", "<", "<="] {
+                let pat = format!("pkg{}{}", op, bd);
+                let name = format!("pkg-{}{}", bd, extra);
+                emit(Op::s("dewey.match", &[&pat, &name]));
+                emit(Op::s("pattern.match", &[&pat, &name]));
+            }
+        }
+    }
     for zero in ["", "0", "0.0", "0.", "_", "pl", "0pl", "00", ".", "0nb0", "nb0"] {
         for op in [">=", ">", "<=", "<"] {
             for v in ["0rc1", "alpha1", "rc1", "0alpha", "pre", "0.0beta", "beta", "0", "", "0.0", "0pl", "pl", "_", "0nb1", "nb1", "a", "0a", "1"] {
@@ -302,8 +313,10 @@ fn gen_c02(tier: &str, rng: &mut Rng, emit: &mut dyn FnMut(Op)) {
             }
         }
     }
-    let bounds = ["", "1", "1.0", "2", "1.5nb2", "é", "=", "=1", "1a"];
-    let vers = ["", "0", "1", "1.0", "1.0nb1", "1.5", "2", "3", "1a", "1.0alpha", "é",
+    let bounds = ["", "1", "1.0", "2", "1.5nb2", "é", "=", "=1", "1a",
+        // a sign is an ignored character, not part of a number; look-alike letters are ignored
+        "-5", "+5", "-0", "+0", "-1.0", "1.0\u{212A}", "1.0\u{130}", "1.0K"];
+    let vers = ["", "0", "1", "1.0", "1.0nb1", "1.5", "2", "3", "1a", "1.0alpha", "é", "5", "-5", "+3", "1.0\u{212A}", "1.0k", "1.0\u{130}",
         // a file-name like ending is part of the version text ("1.0.tgz" > "1.0")
         "1.0.tgz", "1.tgz", "1.5.tgz", "2.tgz", "1.0.tar.gz", "1.0 ", " 1.0", "1.0\n", "1.0nb1.tgz", ".tgz"];
     let mut pats: Vec<String> = vec![];
@@ -520,7 +533,7 @@ fn gen_c18(tier: &str, rng: &mut Rng, emit: &mut dyn FnMut(Op)) {
     }
 }
 
-pub const SEGS19: [&str; 7] = ["..", ".", "a", "b", "", ".. ", "..."];
+pub const SEGS19: [&str; 8] = ["..", ".", "a", "b", "", ".. ", "...", "buildlink3.mk"];
 
 fn gen_c19(tier: &str, rng: &mut Rng, emit: &mut dyn FnMut(Op)) {
     let thorough = tier == "thorough";
@@ -591,6 +604,16 @@ fn gen_c19(tier: &str, rng: &mut Rng, emit: &mut dyn FnMut(Op)) {
     }
     emit(Op::s("depend.new", &[":"]));
     emit(Op::s("depend.new", &[""]));
+    // a brace pattern is valid as soon as its braces balance, whatever its expansions compile to
+    for pat in ["{mysql,mariadb}-client>=8.0>8.1", "{a,b}-[0-9", "mysql-client-{[0-9]***,8.0}", "{a,b}>=1", "{a,{b,c}}-[0-9]*"] {
+        for q in ["databases/mysql80-client", "../../databases/mysql80-client", "x"] {
+            emit(Op::s("depend.new", &[&format!("{}:{}", pat, q)]));
+        }
+    }
+    for q in ["devel/zlib/buildlink3.mk", "../../devel/zlib/buildlink3.mk", "devel/buildlink3.mk", "../../buildlink3.mk/x", "devel/zlib/Makefile"] {
+        emit(Op::s("pkgpath.new", &[q]));
+        emit(Op::s("depend.new", &[&format!("zlib>=1.2:{}", q)]));
+    }
     // the pattern's base may be the very name of the package directory (the usual case in the
     // wild): the exposed parts are still exactly what parsing each half gives
     for (pat, dir) in [("pkg>=1.0", "pkg"), ("pkg-[0-9]*", "pkg"), ("pkg", "pkg"), ("{pkg,pkg2}>=1", "pkg"), ("pkg>=1<2", "pkg"),
@@ -719,10 +742,19 @@ fn gen_c04(tier: &str, rng: &mut Rng, emit: &mut dyn FnMut(Op)) {
         ("{x,y}-{x,y}", vec!["x-y", "y-x", "x-x", "y-y"]),
         ("{,a}{,a}b", vec!["b", "ab", "aab", "aaab"]),
         ("{a,b}c{a,b}c{a,b}", vec!["acbca", "bcacb", "acacb", "acaca"]),
+        // the "any PKGREVISION" idiom is a brace group like any other
+        ("foo-1.0{,nb*}", vec!["foo-1.0", "foo-1.0nb1", "foo-1.0nb1nb2", "foo-1.0nbxnb", "foo-1.0.1"]),
+        ("foo-1.0{,nb[0-9]*}", vec!["foo-1.0nb1nb2", "foo-1.0nb", "foo-1.0nb12"]),
         // an expansion that is a version-less name of a comparison pattern matches nothing
         ("{foo,bar}>=0", vec!["foo", "bar", "foo-0", "foo-"]),
         ("lib{x{,11},y}<2", vec!["libx", "libx11", "liby", "libx-1", "libx11-1.9"]),
     ];
+    // many groups: every one of the 2^13 expansions counts, the last as much as the first (one
+    // op only: each such match costs tens of milliseconds)
+    {
+        let big = format!("{}-1.0", "{a,b}".repeat(13));
+        emit(Op::s("pattern.match", &[&big, "bbbbbbbbbbbbb-1.0"]));
+    }
     for (p, names) in &fixed {
         emit(Op::s("pattern.new", &[p]));
         for n in names {
@@ -1002,6 +1034,16 @@ fn gen_c05(tier: &str, rng: &mut Rng, emit: &mut dyn FnMut(Op)) {
             emit(Op::s("glob.match", &[q, n]));
         }
     }
+    // nine and more '*' (also as set members) are still a well-formed glob
+    for (q, ns) in [("*a*b*c*d*e*f*g*h*", vec!["abcdefgh", "xaxbxcxdxexfxgxhx", "abcdefg"]), ("lib*-*.*.*.*.*.*.*.*", vec!["libx-1.2.3.4.5.6.7.8", "libx-1.2.3"]),
+        ("[*][*][*]-*-[*][*][*]-*-?*", vec!["***-a-***-b-c", "***-a-**-b-c"]), ("*-*-*-*-*-*-*-*-*-*", vec!["1-2-3-4-5-6-7-8-9-0", "1-2-3"])] {
+        emit(Op::s("pattern.new", &[q]));
+        emit(Op::s("glob.new", &[q]));
+        for n in ns {
+            emit(Op::s("pattern.match", &[q, n]));
+            emit(Op::s("glob.match", &[q, n]));
+        }
+    }
     // plain patterns
     for p in ["foo-1.0", "a", "", "ab", "é", "a-b", "-", "A1", "foo", "mutt"] {
         emit(Op::s("pattern.new", &[p]));
@@ -1060,6 +1102,9 @@ fn gen_c06(tier: &str, rng: &mut Rng, emit: &mut dyn FnMut(Op)) {
         // ignored characters (NUL included) are skipped, what follows them still counts; "nb0" is a
         // revision of 0, as is a bare "nb"
         "1\0.5", "1.0\0nb3", "2\0rc1", "1.0\0", "1.0nb0", "1.0nb000", "1.2",
+        // "nb" is followed by DIGITS: a sign is an ignored character and the digits after it are a
+        // component; an earlier nb<N> stays in force until a later one replaces it
+        "1.0nb+5", "1.0nb-3", "1.0.1", "1nb3.0", "1nb3.0nb1", "1nb3.0nb3", "1nb3_0nb2", "1nb3.0nb4",
         // a version may START with a modifier (below zero), next to the largest numbers
         "alpha1", "rc1", "beta", "pre2", "9223372036854775806", "9223372036854775805", "9223372036854775804",
         // every '.' is a component of its own: empty fields between, before and after dots
